@@ -1,9 +1,11 @@
-(* C09 — GCS: the file store answers like the memory store, except for the listing walk order.
+(* C09 — GCS: the file store answers like the memory store.  The listing walk visits the names
+   in bytewise order (each preceded by the directories leading to it), so on every well-formed
+   state every request — listings included — gets the same answer from both stores.
    Only statements here; proofs are in GCS/FileListProofs.v. *)
 From Coq Require Import List NArith ZArith Bool Sorting Permutation.
 Import ListNotations.
 From Emu.Common Require Import Bytes Str StrProofs.
-From Emu.GCS Require Import Model FileList ListingProofs FileListProofs.
+From Emu.GCS Require Import Model FileList UploadProofs ListingProofs FileListProofs.
 Local Open Scope Z_scope.
 
 (* every request other than a listing is served by the same handler model for both stores *)
@@ -11,110 +13,227 @@ Theorem C09_same_handlers : forall s r, (forall b p d c m, r <> RList b p d c m)
 Proof. intros s r H. destruct r; try reflexivity. exfalso. eapply H. reflexivity. Qed.
 Print Assumptions C09_same_handlers.
 
-(* 1. the file walk visits the names in the order of their path-segment lists *)
+(* 1. the file walk visits the names in bytewise order ... *)
 Theorem C09_fs_sort_perm : forall names, Permutation names (fs_sort names).
 Proof. exact fs_sort_perm. Qed.
 Print Assumptions C09_fs_sort_perm.
 
-Theorem C09_fs_sort_sorted : forall names, StronglySorted name_le (fs_sort names).
+Theorem C09_fs_sort_sorted : forall names, StronglySorted lex_le (fs_sort names).
 Proof. exact fs_sort_sorted. Qed.
 Print Assumptions C09_fs_sort_sorted.
 
-(* 2. order-compatible = already in segment order *)
-Theorem C09_order_compatible_iff : forall names, order_compatible names <-> StronglySorted name_le names.
-Proof. exact order_compatible_iff. Qed.
-Print Assumptions C09_order_compatible_iff.
+(* ... which is the order the names of a bucket are kept in *)
+Theorem C09_fs_sort_id_on_sorted : forall names, StronglySorted lex_le names -> fs_sort names = names.
+Proof. exact fs_sort_id_on_sorted. Qed.
+Print Assumptions C09_fs_sort_id_on_sorted.
 
-(* 3. on a bucket whose names are representable and order-compatible the two walks return the
-   same page, for every prefix, delimiter, cursor and page size *)
+Theorem C09_fs_sort_bucket : forall bk : bucket, asorted bk -> fs_sort (map fst bk) = map fst bk.
+Proof. exact fs_sort_bucket. Qed.
+Print Assumptions C09_fs_sort_bucket.
+
+Theorem C09_fs_sort_state_ok : forall s b bk, state_ok s -> get_bucket s b = Some bk ->
+  fs_sort (map fst bk) = map fst bk.
+Proof. exact fs_sort_state_ok. Qed.
+Print Assumptions C09_fs_sort_state_ok.
+
+Theorem C09_fs_sort_reachable : forall rs b bk, get_bucket (fst (run init_state rs)) b = Some bk ->
+  fs_sort (map fst bk) = map fst bk.
+Proof. exact fs_sort_reachable. Qed.
+Print Assumptions C09_fs_sort_reachable.
+
+(* 2. on every sorted bucket the two walks return the same page, for every prefix, delimiter,
+   cursor and page size; no condition on the shape of the names *)
 Theorem C09_fs_walk_equiv : forall (bk : bucket) delim cursor prefix maxres,
-  asorted bk -> representable (map fst bk) -> order_compatible (map fst bk) ->
+  asorted bk ->
   list_walk delim cursor prefix maxres (fs_entries bk) = list_walk delim cursor prefix maxres (mem_entries bk).
 Proof. exact fs_walk_equiv. Qed.
 Print Assumptions C09_fs_walk_equiv.
 
-(* in the model order-compatibility alone suffices *)
-Theorem C09_fs_walk_equiv_order : forall (bk : bucket) delim cursor prefix maxres,
-  asorted bk -> order_compatible (map fst bk) ->
-  list_walk delim cursor prefix maxres (fs_entries bk) = list_walk delim cursor prefix maxres (mem_entries bk).
-Proof. exact fs_walk_equiv_order. Qed.
-Print Assumptions C09_fs_walk_equiv_order.
+Theorem C09_fs_walk_equiv_names : forall names delim cursor prefix maxres,
+  StronglySorted lex_lt names ->
+  list_walk delim cursor prefix maxres (([], true) :: fs_entries_go [] (fs_sort names))
+  = list_walk delim cursor prefix maxres (ents names).
+Proof. exact fs_walk_equiv_names. Qed.
+Print Assumptions C09_fs_walk_equiv_names.
 
 Theorem C09_fs_walk_equiv_nodelim : forall (bk : bucket) cursor prefix maxres,
-  asorted bk -> order_compatible (map fst bk) ->
+  asorted bk ->
   list_walk [] cursor prefix maxres (fs_entries bk)
   = (firstn maxres (filter (sel cursor prefix) (map fst bk)), [],
      (maxres <? length (filter (sel cursor prefix) (map fst bk)))%nat).
 Proof. exact fs_walk_equiv_nodelim. Qed.
 Print Assumptions C09_fs_walk_equiv_nodelim.
 
-(* hence the handlers agree on such states, and so do whole runs through such states *)
-Theorem C09_stores_equivalent : forall s r, fs_compatible s -> handle_fs s r = handle s r.
+(* 3. hence the handlers agree on every state satisfying the store invariant, and whole runs
+   agree; from the empty store without any condition on the requests *)
+Theorem C09_stores_equivalent_buckets : forall s r,
+  (forall b bk, get_bucket s b = Some bk -> asorted bk) -> handle_fs s r = handle s r.
+Proof. exact stores_equivalent_buckets. Qed.
+Print Assumptions C09_stores_equivalent_buckets.
+
+Theorem C09_stores_equivalent : forall s r, state_ok s -> handle_fs s r = handle s r.
 Proof. exact stores_equivalent. Qed.
 Print Assumptions C09_stores_equivalent.
 
-Theorem C09_run_fs_equiv : forall rs s, fs_compatible_run s rs -> run_fs s rs = run s rs.
+Theorem C09_run_fs_equiv : forall rs s, state_ok s -> run_fs s rs = run s rs.
 Proof. exact run_fs_equiv. Qed.
 Print Assumptions C09_run_fs_equiv.
 
-(* 4. finding GCS-2: bucket {"foo-bar/x", "foo/y"}, prefix "foo-": memory store lists "foo-bar/x",
-   the file store lists nothing *)
-Theorem C09_stores_listing_refuted :
-  list_proj (snd (handle c09_state c09_list)) = ([c09_foo_bar_x], [], None)
-  /\ list_proj (snd (handle_fs c09_state c09_list)) = ([], [], None)
-  /\ handle_fs c09_state c09_list <> handle c09_state c09_list.
-Proof. exact stores_listing_refuted. Qed.
-Print Assumptions C09_stores_listing_refuted.
+Theorem C09_run_fs_equiv_init : forall rs, run_fs init_state rs = run init_state rs.
+Proof. exact run_fs_equiv_init. Qed.
+Print Assumptions C09_run_fs_equiv_init.
 
-(* 5. soundness of the file listing without any hypothesis on the names *)
-Theorem C09_prune_sound_partial : forall s b prefix delim cursor maxres s' items prefixes next,
+Theorem C09_run_fs_canon_equiv : forall rs, run_fs_canon rs = run_canon rs.
+Proof. exact run_fs_canon_equiv. Qed.
+Print Assumptions C09_run_fs_canon_equiv.
+
+(* 4. the pruning tests on directory entries are sound for all inputs: nothing under a skipped
+   directory is selected; everything under (and, in an ascending list, after) a directory beyond
+   the prefix range is beyond it too *)
+Theorem C09_prune_sound : forall cursor prefix d n, has_prefix n (d ++ s_sep) = true ->
+  (less_than_prefix d cursor || less_than_prefix d prefix = true -> sel cursor prefix n = false)
+  /\ (greater_than_prefix d prefix = true ->
+      greater_than_prefix n prefix = true /\ has_prefix n prefix = false
+      /\ forall rest, StronglySorted lex_lt (n :: rest) ->
+           Forall (fun g => greater_than_prefix g prefix = true /\ has_prefix g prefix = false) rest).
+Proof. exact prune_sound. Qed.
+Print Assumptions C09_prune_sound.
+
+(* soundness of the file listing on any state ... *)
+Theorem C09_fs_list_sound : forall s b prefix delim cursor maxres s' items prefixes next,
   handle_fs s (RList b prefix delim cursor maxres) = (s', mkResp 200 (BList items prefixes next)) ->
   Forall (fun v => exists o, find_obj s b (v_name v) = Some o /\ v = view b (v_name v) o
                     /\ lex_ltb (match cursor with Some c => c | None => [] end) (v_name v) = true
                     /\ has_prefix (v_name v) prefix = true) items.
-Proof. exact prune_sound_partial. Qed.
-Print Assumptions C09_prune_sound_partial.
+Proof. exact fs_list_sound. Qed.
+Print Assumptions C09_fs_list_sound.
+
+(* ... and its completeness on well-formed states: exactly the first m selected names *)
+Theorem C09_fs_list_complete : forall s b prefix cursor ms m bk,
+  state_ok s -> parse_int ms = Some m -> (1 <= m)%Z -> get_bucket s b = Some bk ->
+  let cur := match cursor with Some c => c | None => [] end in
+  let F := filter (sel cur prefix) (map fst bk) in
+  let found := firstn (Z.to_nat m) F in
+  let more := (Z.to_nat m <? length F)%nat in
+  exists items,
+    handle_fs s (RList b prefix [] cursor (Some ms))
+    = (s, mkResp 200 (BList items []
+                        (if more then match rev found with l :: _ => Some l | [] => None end else None)))
+    /\ map v_name items = found
+    /\ Forall (fun v => v_bucket v = b /\ exists o, alookup (v_name v) bk = Some o /\ v = view b (v_name v) o) items.
+Proof. exact fs_list_complete. Qed.
+Print Assumptions C09_fs_list_complete.
+
+(* 5. what the walk used to do (finding GCS-2, repaired): filepath.Walk's order is a sort by
+   path-segment lists; where it agrees with the bytewise order the old walk was right; on bucket
+   {"foo-bar/x", "foo/y"} with prefix "foo-" it listed nothing, the repaired walk lists "foo-bar/x" *)
+Theorem C09_fs_sort_walk_perm : forall names, Permutation names (fs_sort_walk names).
+Proof. exact fs_sort_walk_perm. Qed.
+Print Assumptions C09_fs_sort_walk_perm.
+
+Theorem C09_fs_sort_walk_sorted : forall names, StronglySorted name_le (fs_sort_walk names).
+Proof. exact fs_sort_walk_sorted. Qed.
+Print Assumptions C09_fs_sort_walk_sorted.
+
+Theorem C09_order_compatible_iff : forall names, order_compatible names <-> StronglySorted name_le names.
+Proof. exact order_compatible_iff. Qed.
+Print Assumptions C09_order_compatible_iff.
+
+Theorem C09_old_walk_equiv_order : forall (bk : bucket) delim cursor prefix maxres,
+  asorted bk -> order_compatible (map fst bk) ->
+  list_walk delim cursor prefix maxres (fs_entries_walk bk) = list_walk delim cursor prefix maxres (mem_entries bk).
+Proof. exact old_walk_equiv_order. Qed.
+Print Assumptions C09_old_walk_equiv_order.
+
+Theorem C09_old_walk_order_refuted :
+  get_bucket c09_state c09_bucket = Some c09_bk
+  /\ map fst c09_bk = [c09_foo_bar_x; c09_foo_y]
+  /\ fs_sort_walk (map fst c09_bk) = [c09_foo_y; c09_foo_bar_x]
+  /\ fs_sort (map fst c09_bk) = [c09_foo_bar_x; c09_foo_y]
+  /\ list_walk [] [] c09_foo_dash 1000 (fs_entries_walk c09_bk) = ([], [], false)
+  /\ list_walk [] [] c09_foo_dash 1000 (fs_entries c09_bk) = ([c09_foo_bar_x], [], false)
+  /\ list_walk [] [] c09_foo_dash 1000 (mem_entries c09_bk) = ([c09_foo_bar_x], [], false)
+  /\ list_proj (snd (handle_fs c09_state c09_list)) = ([c09_foo_bar_x], [], None)
+  /\ handle_fs c09_state c09_list = handle c09_state c09_list.
+Proof. exact old_walk_order_refuted. Qed.
+Print Assumptions C09_old_walk_order_refuted.
 
 (* ---- non-vacuity ---- *)
 
+(* the sort moves names, and the two orders differ on the names of GCS-2 *)
 Example C09_sort_nonvacuous :
-  fs_sort [c09_foo_bar_x; c09_foo_y] = [c09_foo_y; c09_foo_bar_x]
-  /\ ~ order_compatible [c09_foo_bar_x; c09_foo_y].
-Proof. split; [vm_compute; reflexivity|]. unfold order_compatible. vm_compute. discriminate. Qed.
-
-(* representability alone is not enough: the names of finding GCS-2 are lex-ascending and
-   representable, but not order-compatible *)
-Example C09_representable_not_enough :
-  representable [c09_foo_bar_x; c09_foo_y]
+  fs_sort [c09_foo_y; [101]%N; c09_foo_bar_x] = [[101]%N; c09_foo_bar_x; c09_foo_y]
+  /\ fs_sort_walk [c09_foo_bar_x; c09_foo_y] = [c09_foo_y; c09_foo_bar_x]
   /\ StronglySorted lex_lt [c09_foo_bar_x; c09_foo_y]
   /\ ~ order_compatible [c09_foo_bar_x; c09_foo_y].
 Proof.
-  split; [|split].
-  - split.
-    + repeat constructor; try discriminate; vm_compute; intuition discriminate.
-    + intros n m Hn Hm [t [Ht E]]. cbn in Hn, Hm.
-      destruct Hn as [<-|[<-|[]]]; destruct Hm as [<-|[<-|[]]]; vm_compute in E;
-        try discriminate E; injection E; intros; subst; try discriminate; try congruence; apply Ht; reflexivity.
-  - repeat constructor.
-  - unfold order_compatible. vm_compute. discriminate.
+  split; [vm_compute; reflexivity|]. split; [vm_compute; reflexivity|]. split; [repeat constructor|].
+  unfold order_compatible. vm_compute. discriminate.
 Qed.
 
-(* bucket {"a/b", "a/c/d", "e"}: sorted, representable, order-compatible; a listing with a
-   delimiter collapses a/ on both stores *)
-Example C09_compatible_nonvacuous :
-  fs_compatible c09_ok_state
+(* bucket {"a/b", "a/c/d", "e"}: a reachable, well-formed state; its bucket is sorted; the walk
+   emits each directory once, before the first name below it; a listing with a delimiter collapses
+   a/ on both stores; a cursor inside a/ and a small page behave alike too *)
+Example C09_equiv_nonvacuous :
+  state_ok c09_ok_state
+  /\ (exists bk, get_bucket c09_ok_state c09_bucket = Some bk /\ asorted bk
+        /\ map fst bk = [[97; 47; 98]; [97; 47; 99; 47; 100]; [101]]%N
+        /\ fs_entries bk
+           = [([], true); ([97]%N, true); ([97; 47; 98]%N, false); ([97; 47; 99]%N, true);
+              ([97; 47; 99; 47; 100]%N, false); ([101]%N, false)])
   /\ list_proj (snd (handle_fs c09_ok_state (RList c09_bucket [] [47]%N None None))) = ([[101]%N], [[97; 47]%N], None)
-  /\ fs_entries_go [] [[97; 47; 98]; [97; 47; 99; 47; 100]; [101]]%N
-     = [([97]%N, true); ([97; 47; 98]%N, false); ([97; 47; 99]%N, true); ([97; 47; 99; 47; 100]%N, false); ([101]%N, false)].
+  /\ list_proj (snd (handle_fs c09_ok_state (RList c09_bucket [97; 47]%N [] (Some [97; 47; 98]%N) (Some [49]%N))))
+     = ([[97; 47; 99; 47; 100]%N], [], None)
+  /\ list_proj (snd (handle_fs c09_ok_state (RList c09_bucket [] [] None (Some [50]%N))))
+     = ([[97; 47; 98]; [97; 47; 99; 47; 100]]%N, [], Some [97; 47; 99; 47; 100]%N).
 Proof.
-  split; [|split; vm_compute; reflexivity].
-  intros b bk H. unfold get_bucket in H. remember (s_buckets c09_ok_state) as bs eqn:Ebs. vm_compute in Ebs. subst bs.
-  cbn [alookup] in H. destruct (beqb b [98%N]); [|discriminate]. injection H as <-. split; [|split].
-  - repeat constructor.
-  - split.
-    + repeat constructor; try discriminate; vm_compute; intuition discriminate.
-    + intros n m Hn Hm [t [Ht E]]. cbn in Hn, Hm.
-      destruct Hn as [<-|[<-|[<-|[]]]]; destruct Hm as [<-|[<-|[<-|[]]]]; vm_compute in E;
-        try discriminate E; injection E; intros; subst; try discriminate; try congruence; apply Ht; reflexivity.
-  - vm_compute. reflexivity.
+  split; [apply state_ok_run; apply state_ok_init|].
+  split; [|split; [|split]; vm_compute; reflexivity].
+  destruct (get_bucket c09_ok_state c09_bucket) as [bk|] eqn:E; [|vm_compute in E; discriminate].
+  exists bk. split; [reflexivity|].
+  split; [eapply reachable_bucket_sorted; exact E|].
+  vm_compute in E. injection E as <-. split; vm_compute; reflexivity.
+Qed.
+
+(* no representability condition: bucket {"a", "a//c", "a/b"} ("a" is an object and a directory,
+   "a//c" has an empty segment) is well-formed for the model, the walk emits file a, directory a,
+   directory a/, ..., and the listings agree *)
+Example C09_odd_names_nonvacuous :
+  state_ok c09_odd_state
+  /\ (exists bk, get_bucket c09_odd_state c09_bucket = Some bk
+        /\ map fst bk = [[97]; [97; 47; 47; 99]; [97; 47; 98]]%N
+        /\ fs_entries bk
+           = [([], true); ([97]%N, false); ([97]%N, true); ([97; 47]%N, true); ([97; 47; 47; 99]%N, false);
+              ([97; 47; 98]%N, false)])
+  /\ handle_fs c09_odd_state (RList c09_bucket [97; 47]%N [47]%N None None)
+     = handle c09_odd_state (RList c09_bucket [97; 47]%N [47]%N None None)
+  /\ list_proj (snd (handle_fs c09_odd_state (RList c09_bucket [97; 47]%N [47]%N None None)))
+     = ([[97; 47; 98]%N], [[97; 47; 47]%N], None).
+Proof.
+  assert (Hok : state_ok c09_odd_state) by (apply state_ok_run; apply state_ok_init).
+  split; [exact Hok|]. split; [|split; [apply stores_equivalent; exact Hok|vm_compute; reflexivity]].
+  destruct (get_bucket c09_odd_state c09_bucket) as [bk|] eqn:E; [|vm_compute in E; discriminate].
+  exists bk. split; [reflexivity|]. vm_compute in E. injection E as <-. split; vm_compute; reflexivity.
+Qed.
+
+(* the pruning tests fire: directory "a" is skipped for prefix "b" and for cursor "b";
+   directory "c" is beyond the prefix range of "b" *)
+Example C09_prune_nonvacuous :
+  has_prefix [97; 47; 120]%N ([97]%N ++ s_sep) = true
+  /\ less_than_prefix [97]%N [98]%N = true
+  /\ sel [] [98]%N [97; 47; 120]%N = false /\ sel [98]%N [] [97; 47; 120]%N = false
+  /\ greater_than_prefix [99]%N [98]%N = true
+  /\ greater_than_prefix [99; 47; 120]%N [98]%N = true.
+Proof. repeat split; vm_compute; reflexivity. Qed.
+
+(* a complete page: two of the three names, token = the last one *)
+Example C09_complete_nonvacuous :
+  parse_int [50]%N = Some 2
+  /\ exists bk, get_bucket c09_ok_state c09_bucket = Some bk
+       /\ firstn (Z.to_nat 2) (filter (sel [] []) (map fst bk)) = [[97; 47; 98]; [97; 47; 99; 47; 100]]%N
+       /\ (Z.to_nat 2 <? length (filter (sel [] []) (map fst bk)))%nat = true.
+Proof.
+  split; [vm_compute; reflexivity|].
+  destruct (get_bucket c09_ok_state c09_bucket) as [bk|] eqn:E; [|vm_compute in E; discriminate].
+  exists bk. split; [reflexivity|]. vm_compute in E. injection E as <-. split; vm_compute; reflexivity.
 Qed.
